@@ -504,7 +504,7 @@ package vuego
 //@   modifies caches(v)
 //@ func (v *Vue) splitObjectItems(content) (r)
 //@   modifies nothing
-//@ func (v *Vue) parseObjectPairs(ctx, content) (r)
+//@ func (v *Vue) parseObjectPairs(ctx, content, quoteStrings) (r)
 //@   modifies caches(v)
 // Interpolation scanner (C02: static neighbours are concatenated with the value's string form): every static segment
 // runs from the end of the previous mustache to the first "{{" after it, a mustache ends at the first "}}" after its
